@@ -24,6 +24,7 @@ for n in $names; do rm -f ./*.o; echo "=== $n"; SAN=
  pcopy) clang $CF -fsanitize=address $H/pcopy.c $C/acquire-device-properties/device/props/storage.c $C/acquire-core-logger/logger.c -o t && ./t 2>&1 | head -8 ;;
  rawtail) clang $CF $H/rawtail_t.c $D/storage/raw.c $C/acquire-device-properties/device/props/storage.c $PLAT -o t -lpthread -ldl && ./t </dev/null 2>&1 | tail -3 ;;
  raw) clang $CF $H/raw_t.c $D/storage/raw.c $C/acquire-device-properties/device/props/storage.c $PLAT -o t -lpthread -ldl && ./t </dev/null 2>&1 | tail -4 ;;
+ tiffres) cc_objs $PROPS $PLAT; clang++ -g -w -std=gnu++20 $INC $H/tiffres_t.cpp $D/storage/tiff.cpp ./*.o -o t -lpthread -ldl && ./t 2>&1 | tail -2 ;;
  tiffmeta) cc_objs $PROPS $PLAT; clang++ -g -w -std=gnu++20 $INC $H/tiffmeta_t.cpp $D/storage/tiff.cpp ./*.o -o t -lpthread -ldl && ./t 2>&1 | tail -2 ;;
  tiff|sbs) cc_objs $PROPS $PLAT; clang++ -g -w -std=gnu++20 $INC $H/tiff_t.cpp $D/storage/tiff.cpp $D/storage/side-by-side-tiff.cpp ./*.o -o t -lpthread -ldl && { if [ $n = sbs ]; then ./t sbs 2>&1 | grep -v '^$' | tail -5; else (./t 2>&1 | grep -v '^$' | cut -c1-150 | tail -4; echo "exit=${PIPESTATUS[0]} (139 = stack overflow)"); fi; } ;;
  latejoin) cp "$(find $R/_build -name libacquire-driver-common.so | head -1)" . 2>/dev/null || { echo "needs a built libacquire-driver-common.so under $R/_build"; continue; }
